@@ -155,7 +155,7 @@ class CTxIn(ImmutableSerializable):
             raise ValueError('CTxIn: nSequence must be an integer between 0x0 and 0xffffffff; got %x' % nSequence)
         object.__setattr__(self, 'nSequence', nSequence)
 
-        object.__setattr__(self, 'prevout', prevout)
+        object.__setattr__(self, 'prevout', COutPoint.from_outpoint(prevout))
         object.__setattr__(self, 'scriptSig', scriptSig)
 
     @classmethod
